@@ -4,6 +4,7 @@ Property theorems only; helper lemmas live in CV/Proofs/Rbac.lean (translation) 
 CV/Proofs/RbacPat.lean (regular-expression layer).
 -/
 import CV.Proofs.RbacPat
+import CV.Proofs.RbacSort
 namespace CV.Rbac
 
 /-- What the translation relies on about the way the policy's principal leaves match ONE caller,
@@ -21,7 +22,9 @@ theorem translate_eq (env : Env) (ixns : List Ixn) (dflt http : Bool) (rb : Rbac
   simp only at h
   split at h
   · simp at h
-  · simp at h; exact h.symm
+  · split at h
+    · simp at h
+    · simp at h; exact h.symm
 
 /-- Headline theorem, generic in the meaning of the principal leaves: for EVERY intention list
     (any sources, peers, precedences, actions, permission lists), both default policies, TCP and
@@ -43,7 +46,7 @@ theorem rbac_correct_on {C : Type} (σ : Sem C) (env : Env) (ixns : List Ixn) (d
     exact hS _ ⟨i, (mem_isort less i ixns).mp (mem_dedupGo [] _ i hi), hs⟩
   rw [rixn_correct σ env _ dflt c r _ S hm hS' hpw]
   unfold intermediate
-  rw [specR_toRIxns σ env _ dflt http c r ho]
+  rw [specR_toRIxns σ env _ dflt http c r _ ho]
   unfold removeSameSource
   rw [dedupGo_find _ (by
     intro a b hab
@@ -71,12 +74,24 @@ theorem rbac_correct_l7 {C : Type} (σ : Sem C) (env : Env) (ixns : List Ixn) (d
     evalRbac σ rb c r = specAllow σ env ixns dflt true c r :=
   rbac_correct σ env ixns dflt true c r hm (fun _ => ho) rb ht
 
-/-- `makeRBACRules` does not panic when no intention names a wildcard peer (config entry
-    validation rejects those). -/
-theorem translate_total (env : Env) (ixns : List Ixn) (dflt http : Bool) (h : ∀ i ∈ ixns, i.peer ≠ star) :
+/-- `makeRBACRules` neither panics nor fails when no intention names a wildcard peer (config
+    entry validation rejects those) and every JWT provider named has a jwt-provider entry. -/
+theorem translate_total (env : Env) (ixns : List Ixn) (dflt http : Bool) (h : ∀ i ∈ ixns, i.peer ≠ star)
+    (hj : ∀ i ∈ ixns, jwtUnknown env i.jwt = false ∧ ∀ p ∈ i.perms, jwtUnknown env p.jwt = false) :
     (translate env ixns dflt http).isSome = true := by
+  have hm : jwtMissing env http (removeSameSource (sortIxns ixns)) = false := by
+    unfold jwtMissing
+    cases http with
+    | false => rfl
+    | true =>
+      simp only [Bool.true_and, List.any_eq_false, Bool.and_eq_true, Bool.or_eq_true, List.any_eq_true, not_and, not_or,
+        not_exists]
+      intro i hi _
+      have hi' : i ∈ ixns := (mem_isort less i ixns).mp (mem_dedupGo [] _ i hi)
+      refine ⟨by simp [(hj i hi').1], ?_⟩
+      intro p hp; simp [(hj i hi').2 p hp]
   unfold translate
-  simp only
+  simp only [hm]
   rw [panics_false dflt _ (by
     intro x hx
     obtain ⟨i, hi, he⟩ := intermediate_peer env http ixns x hx
@@ -100,6 +115,76 @@ theorem decider_has_highest_precedence (m : Name → Name → Bool) (ixns : List
 theorem precOf_table : precOf [119] [97] = 9 ∧ precOf star [97] = 8 ∧ precOf [119] star = 6 ∧ precOf star star = 5 := by
   decide
 
+/-- The comparator is a strict total order on intentions with distinct
+    (source peer, source name, destination): the tie-break always decides. -/
+theorem less_strict_total_on_distinct_keys (a b c : Ixn) :
+    (less a b = true → less b c = true → less a c = true) ∧ (less a b = true → less b a = true → False)
+    ∧ (a.fkey ≠ b.fkey → less a b = true ∨ less b a = true) :=
+  ⟨less_trans a b c, less_asymm a b, less_total a b⟩
+
+/-- `sort_perm_invariant`: with distinct keys (what config entry validation guarantees) every
+    order of the same intentions sorts to the same list — `sort.Sort` being unstable is harmless. -/
+theorem sort_perm_invariant (xs ys : List Ixn) (h : xs.Pairwise (fun a b => a.fkey ≠ b.fkey)) (hp : xs.Perm ys) :
+    sortIxns xs = sortIxns ys :=
+  sortIxns_perm_invariant xs ys h hp
+
+/-- The generated policy does not depend on the order in which the intentions are handed to
+    `makeRBACRules`. -/
+theorem translate_input_order_irrelevant (env : Env) (xs ys : List Ixn) (dflt http : Bool)
+    (h : xs.Pairwise (fun a b => a.fkey ≠ b.fkey)) (hp : xs.Perm ys) :
+    translate env xs dflt http = translate env ys dflt http := by
+  have hx : expectXFCC env http xs = expectXFCC env http ys := by
+    unfold expectXFCC; rw [hp.any_eq]
+  unfold translate intermediate
+  rw [sortIxns_perm_invariant xs ys h hp, hx]
+
+/-- without distinct keys the statement is false for a stable sort: two intentions with the same
+    key and precedence but different actions keep their input order -/
+theorem sort_needs_distinct_keys_counterexample :
+    let a : Ixn := ⟨[], [119], [97], 9, true, [], []⟩
+    let b : Ixn := ⟨[], [119], [97], 9, false, [], []⟩
+    [a, b].Perm [b, a] ∧ sortIxns [a, b] ≠ sortIxns [b, a] := by
+  refine ⟨List.Perm.swap _ _ _, by decide⟩
+
+/-- Mutant "drop the general instead of the specific NOT-source": in CE it cannot change the
+    policy, because every NOT-source list that `removeSourcePrecedence` builds consists of exact
+    sources, on which both variants of `simplifyNotSourceSlice` are the identity. (The helper
+    itself does differ on mixed lists — next theorem — which is what the `simp` correspondence
+    line detects.) -/
+theorem simplify_direction_irrelevant_in_ce (env : Env) (xf dflt : Bool) (rs : List RIxn) :
+    ∀ z ∈ removeSourcePrecedence env xf dflt rs,
+      simplifyNotSourcesSwapped z.nots = simplifyNotSources z.nots ∧ simplifyNotSources z.nots = z.nots := by
+  intro z hz
+  have hex := rspGo_nots_exact env xf dflt [] rs z hz
+  refine ⟨simplify_direction_irrelevant_on_exact _ hex, ?_⟩
+  unfold simplifyNotSources
+  split
+  · rfl
+  · have hs : ∀ n ∈ stableSortBy countWild z.nots, n.name ≠ star :=
+      fun n hn => hex n ((mem_stableSortBy _ _ _).mp hn)
+    rw [(keep_exact _ hs).1]
+    -- a stable sort of a list whose keys are all 0 is the list itself
+    have hz0 : ∀ (l : List Src), (∀ n ∈ l, n.name ≠ star) → stableSortBy countWild l = l := by
+      intro l hl
+      induction l with
+      | nil => rfl
+      | cons a l ih =>
+        have ih' := ih (fun n hn => hl n (List.mem_cons_of_mem _ hn))
+        simp only [stableSortBy, ih']
+        cases l with
+        | nil => rfl
+        | cons b l =>
+          have ha : countWild a = 0 := by simp [countWild, hl a List.mem_cons_self]
+          have hb : countWild b = 0 := by simp [countWild, hl b (by simp)]
+          simp [insBy, ha, hb]
+    exact hz0 _ hex
+
+theorem simplify_direction_matters_on_mixed_lists :
+    let web : Src := ⟨[119], [], [], [116]⟩
+    let any : Src := ⟨star, [], [], [116]⟩
+    simplifyNotSources [web, any] = [any] ∧ simplifyNotSourcesSwapped [web, any] = [web, any] := by
+  decide
+
 /-! ### instantiation 1: callers as structured SPIFFE identities -/
 
 /-- Full statement for structured identities: in an environment whose source clusters have
@@ -113,11 +198,11 @@ theorem rbac_correct_callers (env : Env) (hok : EnvOK env) (ixns : List Ixn) (df
 /-- `EnvOK` is needed: two peers with the same trust domain and partition make
     `[web@p deny, *@q allow]` (default deny) allow `web`, although precedence denies it. -/
 theorem envOK_needed_counterexample :
-    let env : Env := ⟨[116], [⟨[112], [117], []⟩, ⟨[113], [117], []⟩]⟩
-    let ixns : List Ixn := [⟨[112], [119], [97], 9, false, []⟩, ⟨[113], star, [97], 8, true, []⟩]
-    let c : Caller := ⟨.svc [117] [] cDefault [100] [119], none⟩
-    (translate env ixns false false).map (fun rb => evalRbac callerSem rb c ⟨[], [], []⟩) = some true
-      ∧ specAllow callerSem env ixns false false c ⟨[], [], []⟩ = false := by
+    let env : Env := ⟨[116], [⟨[112], [117], []⟩, ⟨[113], [117], []⟩], []⟩
+    let ixns : List Ixn := [⟨[112], [119], [97], 9, false, [], []⟩, ⟨[113], star, [97], 8, true, [], []⟩]
+    let c : Caller := ⟨.svc [117] [] cDefault [100] [119], none, []⟩
+    (translate env ixns false false).map (fun rb => evalRbac callerSem rb c ⟨[], [], [], []⟩) = some true
+      ∧ specAllow callerSem env ixns false false c ⟨[], [], [], []⟩ = false := by
   decide
 
 /-! ### building blocks named in the design -/
@@ -131,12 +216,12 @@ theorem simplify_not_sources_equiv {C : Type} (σ : Sem C) (c : C) (s : Src) (no
   simp [evalPr, List.all_map, Function.comp_def]
 
 /-- permission precedence removal: the emitted permission list matches a request iff the first
-    matching permission of the intention has a non-default action -/
+    matching permission of the intention has a non-default action and its JWT requirement is met -/
 theorem perm_precedence_removed (dflt : Bool) (r : Req) (ps : List RPerm) :
     (removePermissionPrecedence dflt ps).any (evalPm r)
       = match ps.find? (fun p => evalPm r p.pm) with
         | none => false
-        | some p => p.allow != dflt :=
+        | some p => (p.allow != dflt) && jwtSat (reqHas r) p.jwt :=
   removePermissionPrecedence_any dflt r ps
 
 /-- `convertPermission` keeps the meaning of an intention permission -/
@@ -169,11 +254,11 @@ theorem pattern_layer_counterexample :
 
 /-- the consequence on the decision: `a b → api : deny` under default allow lets `a b` through -/
 theorem url_unsafe_name_counterexample :
-    let env : Env := ⟨[116], []⟩
-    let ixns : List Ixn := [⟨[], [97, 32, 98], [97], 9, false, []⟩]
-    let c : Caller := ⟨.svc [116] [] cDefault [100] [97, 32, 98], none⟩
-    (translate env ixns true false).map (fun rb => evalRbac wireSem rb (wire c) ⟨[], [], []⟩) = some true
-      ∧ specAllow callerSem env ixns true false c ⟨[], [], []⟩ = false := by
+    let env : Env := ⟨[116], [], []⟩
+    let ixns : List Ixn := [⟨[], [97, 32, 98], [97], 9, false, [], []⟩]
+    let c : Caller := ⟨.svc [116] [] cDefault [100] [97, 32, 98], none, []⟩
+    (translate env ixns true false).map (fun rb => evalRbac wireSem rb (wire c) ⟨[], [], [], []⟩) = some true
+      ∧ specAllow callerSem env ixns true false c ⟨[], [], [], []⟩ = false := by
   decide
 
 /-- `pattern_layer` for the XFCC principal of peered L7 sources: the header pattern matches iff the
@@ -236,7 +321,7 @@ theorem rbac_correct_wire (env : Env) (hok : EnvOK env) (ixns : List Ixn) (dflt 
     srcRel_congr _ _ _ heq
       (srcRel_mono _ _ _ (IxnSrc_env env ixns) (callerSem_rel env hok (expectXFCC env http ixns) c))
   rw [rbac_correct_on wireSem env ixns dflt http (wire c) r (IxnSrc env ixns) (fun _ h => h) hrel ho rb ht]
-  exact specAllow_congr_ixns wireSem callerSem env ixns dflt http (wire c) c r heq
+  exact specAllow_congr_ixns wireSem callerSem env ixns dflt http (wire c) c r heq (fun _ _ => rfl)
 
 /-- TCP listeners, on the wire -/
 theorem rbac_correct_wire_l4 (env : Env) (hok : EnvOK env) (ixns : List Ixn) (dflt : Bool) (c : Caller) (r : Req)
@@ -253,19 +338,35 @@ theorem rbac_correct_wire_l7 (env : Env) (hok : EnvOK env) (ixns : List Ixn) (df
 /-! ### non-vacuity -/
 
 /-- an environment with a peer, satisfying `EnvOK` -/
-example : EnvOK ⟨[116, 46, 99], [⟨[112], [117, 46, 99], []⟩, ⟨[113], [117, 46, 99], [120]⟩]⟩ :=
+example : EnvOK ⟨[116, 46, 99], [⟨[112], [117, 46, 99], []⟩, ⟨[113], [117, 46, 99], [120]⟩], []⟩ :=
   envOK_of_check _ (by decide)
 
 /-- a non-trivial translation exists: `[web deny, * allow]`, default deny, gives one policy with
     `* AND NOT web`, which allows `db` and denies `web` -/
 example :
-    let env : Env := ⟨[116], []⟩
-    let ixns : List Ixn := [⟨[], star, [97], 8, true, []⟩, ⟨[], [119], [97], 9, false, []⟩]
+    let env : Env := ⟨[116], [], []⟩
+    let ixns : List Ixn := [⟨[], star, [97], 8, true, [], []⟩, ⟨[], [119], [97], 9, false, [], []⟩]
     (translate env ixns false false).map (fun rb =>
         (rb.policies.length,
-         evalRbac callerSem rb ⟨.svc [116] [] cDefault [100] [100, 98], none⟩ ⟨[], [], []⟩,
-         evalRbac callerSem rb ⟨.svc [116] [] cDefault [100] [119], none⟩ ⟨[], [], []⟩))
+         evalRbac callerSem rb ⟨.svc [116] [] cDefault [100] [100, 98], none, []⟩ ⟨[], [], [], []⟩,
+         evalRbac callerSem rb ⟨.svc [116] [] cDefault [100] [119], none, []⟩ ⟨[], [], [], []⟩))
       = some (1, true, false) := by
+  decide
+
+/-- JWT requirements are enforced: `[web → api : allow]` in an entry that requires a token of
+    provider `o` (issuer `i`) with claim `r = a`, default deny — `web` is allowed with such a token,
+    denied without it, with a wrong claim, or with another issuer -/
+example :
+    let env : Env := ⟨[116], [], [([111], [105])]⟩
+    let ixns : List Ixn := [⟨[], [119], [97], 9, true, [], [⟨[111], [⟨[[114]], [97]⟩]⟩]⟩]
+    let web (md : List (List Name × Name)) : Caller := ⟨.svc [116] [] cDefault [100] [119], none, md⟩
+    let key := payloadKey [111]
+    (translate env ixns false true).map (fun rb =>
+        (evalRbac callerSem rb (web [([key, cIss], [105]), ([key, [114]], [97])]) ⟨[], [], [], []⟩,
+         evalRbac callerSem rb (web []) ⟨[], [], [], []⟩,
+         evalRbac callerSem rb (web [([key, cIss], [105]), ([key, [114]], [98])]) ⟨[], [], [], []⟩,
+         evalRbac callerSem rb (web [([key, cIss], [106]), ([key, [114]], [97])]) ⟨[], [], [], []⟩))
+      = some (true, false, false, false) := by
   decide
 
 /-- the hypotheses of the wire-level theorem are satisfiable -/
@@ -276,9 +377,9 @@ example : TdExact [116, 46, 99] [116, 46, 99] := ⟨rfl, fun _ => rfl⟩
 
 /-- `WireOK` is satisfiable for a peered caller behind the local mesh gateway (XFCC mode) -/
 example :
-    let env : Env := ⟨[116], [⟨[112], [117], []⟩]⟩
-    let ixns : List Ixn := [⟨[112], [119], [97], 9, true, [⟨true, none⟩]⟩]
-    let c : Caller := ⟨.gw [116] [100], some [⟨[66], .svc [117] [] cDefault [100] [119]⟩]⟩
+    let env : Env := ⟨[116], [⟨[112], [117], []⟩], []⟩
+    let ixns : List Ixn := [⟨[112], [119], [97], 9, true, [⟨true, none, []⟩], []⟩]
+    let c : Caller := ⟨.gw [116] [100], some [⟨[66], .svc [117] [] cDefault [100] [119]⟩], []⟩
     WireOK env ixns c ∧ expectXFCC env true ixns = true := by
   intro env ixns c
   have hsrc : ∀ s, IxnSrc env ixns s → s = ⟨[119], [112], [], [117]⟩ := by
